@@ -754,6 +754,11 @@ class Obj(Engine):
                 ids = other.GetHash() == gh and (h.kind != 'tx' or other.GetTxid() == h.obj.GetTxid())
             except Exception as e:
                 e1 = e2 = hh = ids = 'raised %s' % type(e).__name__
+            if not (e1 is True and e2 is True):
+                # equality must reflect the current field values (C09) and hold across the mutable /
+                # immutable divide (C02): the same observation, reported under whichever is being checked
+                ctx.check(False, 'C09.eq', '%s %s does not compare equal (==:%r/%r) to a fresh %s object built from its current field values (after %s)'
+                          % ('mutable' if h.mutable else 'immutable', h.kind, e1, e2, 'immutable' if h.mutable else 'mutable', op), op=op, kind=h.kind, mutable=h.mutable)
             if not (e1 is True and e2 is True and hh is True and ids is True):
                 stale = h.mutable
                 clause = 'C09.ids' if (stale and hh is not True and e1 is True) else 'C02.mut-immut'
